@@ -34,10 +34,10 @@ META = {
             "lost the whole message (F16). Both are repaired in the code (fix 3c79378) and gone from the theorems; "
             "k2_repaired / k3_repaired evaluate the former counterexamples. The former hypothesis '65535 only on string / "
             "octetArray elements' was read off getDataLength, not RFC 7011 section 7: any other variable-length element (RFC 6313 "
-            "structured data 291..293 always is) lost the whole message (F23, fix 606ce73, f23_repaired). What `interpret` means "
+            "structured data 291..293 always is) lost the whole message (F23, fix 6666d44, f23_repaired). What `interpret` means "
             "for the integer types is stated independently of it (Wire.unsignedValue / signedValue, from RFC 7011 6.1) and "
             "proved: unsigned_field_value / signed_field_value (a field of k <= n <= 8 octets, k the type's size, is reported "
-            "with the value of ALL n octets; before fix 606ce73 the leading k octets were read: F24, f24_repaired), "
+            "with the value of ALL n octets; before fix 6666d44 the leading k octets were read: F24, f24_repaired), "
             "integer_field_kind, field_raw (shorter than the type, or an integer of more than 8 octets: the octets). "
             "Further: set length < 65536, non-empty sets, "
             "template ids != 0, a template "
